@@ -221,6 +221,7 @@ func runC18(c *Ctx) {
 	P := c.P
 	c.Explanation = "Decides: (R-NONNIL-FRESH) every value returned by New, NewSize, Clone, Intersect, Range, Keys and Values is a map allocated inside the call and provably non-nil — a make; maps.Clone(x) only under the fact x != nil; the result of a receiver-returning helper applied to such a map; or the content of a local cell that only ever receives such maps (including through (*Set).Add/AddAll, whose stores through the receiver are summarised) — and is never a parameter, so results cannot alias arguments; AddAll on a nil receiver stores a clone, not its argument. (R-NIL-LAZY) in pointer-receiver methods every update of *s is preceded on all paths by *s != nil or by storing a fresh map. Does NOT decide the set-theoretic answers of the predicates, Pop, or Slice."
 	c.rule("R-NONNIL-FRESH", 9, "returned sets are fresh, non-nil, and never a parameter; stores through a *Set receiver store fresh non-nil maps")
+	c.rule("R-CARD-SHORTCUT", 2, "a branch on len(a) vs len(b) that returns a constant answer compares two sets, never a list (repeats) with a set")
 	c.rule("R-NIL-LAZY", 3, "every map update of *s (directly or via a receiver-updating helper) is preceded on all paths by *s != nil or a store of a fresh map")
 	setT := P.Named("mapset", "Set")
 	if setT == nil {
@@ -316,6 +317,47 @@ func runC18(c *Ctx) {
 			}
 		})
 	}
+	// ---- R-CARD-SHORTCUT: a length comparison may short-circuit an answer only between two sets
+	for _, fn := range P.PkgFuncs("mapset") {
+		allInstrs(fn, func(in ssa.Instruction) {
+			iff, ok := in.(*ssa.If)
+			if !ok {
+				return
+			}
+			f := expandFact(Fact{iff.Cond, true})[0]
+			bo, ok := f.Cond.(*ssa.BinOp)
+			if !ok {
+				return
+			}
+			lx, okx := isBuiltinCall(bo.X, "len")
+			ly, oky := isBuiltinCall(bo.Y, "len")
+			if !okx || !oky {
+				return
+			}
+			// does either successor return a constant right away?
+			shortcut := false
+			for _, sb := range iff.Block().Succs {
+				if len(sb.Instrs) <= 2 {
+					if ret, ok := sb.Instrs[len(sb.Instrs)-1].(*ssa.Return); ok && len(ret.Results) == 1 {
+						if _, isConst := ret.Results[0].(*ssa.Const); isConst {
+							shortcut = true
+						}
+					}
+				}
+			}
+			if !shortcut {
+				return
+			}
+			c.sawFn(fnName(fn))
+			isMap := func(v ssa.Value) bool {
+				_, ok := v.Type().Underlying().(*types.Map)
+				return ok
+			}
+			key := fmt.Sprintf("%s:len(%s) %s len(%s)", fnName(fn), ksym(lx.Call.Args[0]), bo.Op, ksym(ly.Call.Args[0]))
+			c.judge(isMap(lx.Call.Args[0]) && isMap(ly.Call.Args[0]), "R-CARD-SHORTCUT", key, bo.Pos(), "cardinalities of two sets are compared", "a length comparison decides the answer, but one side is a list that may contain repeated values, so its length is not a cardinality")
+		})
+	}
+
 	// value-receiver writer `add` called with a fresh receiver elsewhere
 	for _, fn := range P.PkgFuncs("mapset") {
 		allInstrs(fn, func(in ssa.Instruction) {
